@@ -33,101 +33,30 @@ def _nonnull(ctx: Ctx, module):
     return f
 
 
-def _inline_filter(ctx: Ctx, ft: FuncInfo, call: ast.Call, tvar_outer: str):
-    """Predicate (formula over atoms mentioning t) selecting the triples returned by
-    self._filter_triples(args), with the literal arguments partially evaluated; also the iteration
-    source expression."""
-    params = ft.positional[1:]
-    subst: Dict[str, object] = {}
-    for p, a in zip(params, call.args):
-        subst[p] = bn.Abstractor.NONE if (isinstance(a, ast.Constant) and a.value is None) else a
-    for kw in call.keywords:
-        subst[kw.arg] = bn.Abstractor.NONE if (isinstance(kw.value, ast.Constant) and kw.value.value is None) else kw.value
-    body = [s for s in ft.node.body if not (isinstance(s, ast.Expr) and isinstance(s.value, ast.Constant))]
-    rets = [n for n in walk_local(ft.node) if isinstance(n, ast.Return) and n.value is not None]
-    if len(rets) != 1 or not isinstance(rets[0].value, ast.Name):
-        raise AnalysisError('_filter_triples: expected `return <name>`')
-    rv = rets[0].value.id
-    results = []           # (path condition formula, predicate formula, source expr)
-
-    def walk(stmts, cond):
-        for st in stmts:
-            if isinstance(st, ast.If):
-                f = bn.Abstractor(subst, nonnull=_nonnull(ctx, ft.module)).formula(st.test)
-                walk(st.body, bn.mk_and([cond, f]))
-                walk(st.orelse, bn.mk_and([cond, bn.mk_not(f)]))
-            elif isinstance(st, ast.Assign) and isinstance(st.targets[0], ast.Name) and st.targets[0].id == rv:
-                v = st.value
-                if isinstance(v, ast.Call) and isinstance(v.func, ast.Name) and v.func.id == 'list' and len(v.args) == 1:
-                    results.append((cond, True, v.args[0], None))
-                elif isinstance(v, ast.ListComp) and len(v.generators) == 1 and isinstance(v.generators[0].target, ast.Name):
-                    g = v.generators[0]
-                    tv = g.target.id
-                    if not (isinstance(v.elt, ast.Name) and v.elt.id == tv):
-                        raise AnalysisError('_filter_triples: comprehension element is not the triple itself')
-                    sub2 = dict(subst)
-                    sub2[tv] = ast.Name(id=tvar_outer, ctx=ast.Load())
-                    pred = bn.mk_and([bn.Abstractor(sub2, nonnull=_nonnull(ctx, ft.module)).formula(c) for c in g.ifs])
-                    results.append((cond, pred, g.iter, g))
-                else:
-                    raise AnalysisError(f'_filter_triples: unsupported assignment {norm(st)[:60]}')
-            elif isinstance(st, (ast.Return, ast.Expr, ast.AnnAssign)):
-                continue
-            else:
-                raise AnalysisError(f'_filter_triples: unsupported statement {norm(st)[:60]}')
-    walk(body, True)
-    live = [(c, p, s, g) for c, p, s, g in results if c is not False]
-    if not live:
-        raise AnalysisError('_filter_triples: no live result')
-    return live
-
-
 @rule('R21', 'instances / edges / attributes partition the triples; edges are the non-instance triples whose target is a variable')
 def r21(ctx: Ctx) -> RuleReport:
+    from ..select import Selector
     rep = RuleReport('R21', r21.title, floor=6)
     repo = ctx.repo
     ft = repo.func(G, 'Graph._filter_triples')
+    sel = Selector(ctx, nonnull=_nonnull(ctx, ft.module))
     preds: Dict[str, object] = {}
-    tv = 't'
     for name in ('instances', 'edges', 'attributes'):
         fi = repo.func(G, f'Graph.{name}')
-        comp = _returned_comp(ctx, fi)
-        if not (isinstance(comp, ast.ListComp) and len(comp.generators) == 1 and isinstance(comp.generators[0].target, ast.Name)):
-            raise AnalysisError(f'{fi.fq}: result is not a single-generator list comprehension')
-        g = comp.generators[0]
-        loc_t = g.target.id
-        # element must be built from the triple itself: X(*t) or t
-        elt_ok = (isinstance(comp.elt, ast.Name) and comp.elt.id == loc_t) or (
-            isinstance(comp.elt, ast.Call) and len(comp.elt.args) == 1 and isinstance(comp.elt.args[0], ast.Starred)
-            and isinstance(comp.elt.args[0].value, ast.Name) and comp.elt.args[0].value.id == loc_t and not comp.elt.keywords)
-        rep.add(f'{fi.fq}: element is the triple itself', fi.loc(comp), 'ok' if elt_ok else 'undecided',
-                '' if elt_ok else f'returns {norm(comp.elt)} per triple')
-        subst: Dict[str, object] = {loc_t: ast.Name(id=tv, ctx=ast.Load())}
-        # single-definition locals (variables = self.variables())
-        for nm, vals in ctx.cg.local_assigns(fi).items():
-            if nm not in fi.params and len(vals) == 1 and isinstance(vals[0], ast.AST) and not isinstance(vals[0], (ast.Import, ast.ImportFrom)):
-                subst[nm] = vals[0]
-        own = bn.mk_and([bn.Abstractor(subst).formula(c) for c in g.ifs])
-        src = single_def(ctx, fi, g.iter)
-        if not (isinstance(src, ast.Call) and isinstance(src.func, ast.Attribute) and src.func.attr == '_filter_triples'
-                and isinstance(src.func.value, ast.Name) and src.func.value.id == 'self'):
-            raise AnalysisError(f'{fi.fq}: does not iterate self._filter_triples(...)')
-        # unfiltered call: every filter parameter of the public method is None
-        call = src
-        import copy
-        call2 = copy.deepcopy(call)
-        pub = set(fi.positional[1:])
-        call2.args = [ast.Constant(value=None) if isinstance(a, ast.Name) and a.id in pub else a for a in call2.args]
-        live = _inline_filter(ctx, ft, call2, tv)
-        if len(live) != 1:
-            # with all-literal arguments exactly one branch of _filter_triples is live
-            raise AnalysisError(f'{fi.fq}: _filter_triples branch is not decided by the literal arguments')
-        cond, fpred, source, gen = live[0]
-        rep.add(f'{fi.fq}: ranges over self.triples', fi.loc(comp), 'ok' if norm(source) == 'self.triples' else 'undecided',
-                '' if norm(source) == 'self.triples' else f'iterates {norm(source)}')
-        preds[name] = bn.mk_and([fpred, own])
-        rep.info(f'{fi.fq}: predicate', fi.loc(comp), bn.show(preds[name]))
-    # canonical atom names
+        # the partition is about the unfiltered queries: every filter parameter is None
+        subst = {p: bn.Abstractor.NONE for p in fi.positional[1:]}
+        try:
+            alts = sel.of_function(fi, subst)
+        except AnalysisError as exc:
+            rep.undecided(f'{fi.fq}: selection summary', fi.loc(), str(exc))
+            return rep
+        srcs = {a[2] for a in alts}
+        rep.add(f'{fi.fq}: ranges over self.triples', fi.loc(), 'ok' if srcs == {'self.triples'} else 'undecided', f'iterates {sorted(srcs)}')
+        kinds = [k for a in alts for k in a[3]]
+        elt_ok = all(k in ('same', 'wrapped') for k in kinds) and sum(k == 'wrapped' for a in alts[:1] for k in a[3]) <= 1
+        rep.add(f'{fi.fq}: element is the triple itself', fi.loc(), 'ok' if elt_ok else 'undecided', f'element kinds {kinds}')
+        preds[name] = bn.mk_or([bn.mk_and([c, p]) for c, p, _, _ in alts])
+        rep.info(f'{fi.fq}: predicate', fi.loc(), bn.show(preds[name]))
     bad = bn.partition_check([preds['instances'], preds['edges'], preds['attributes']])
     where = repo.func(G, 'Graph.edges').loc()
     if bad is None:
@@ -139,42 +68,49 @@ def r21(ctx: Ctx) -> RuleReport:
         rep.violation('Graph: instances/edges/attributes are pairwise disjoint and jointly exhaustive', where,
                       f'a triple with {env} is returned by {names or "none of the three queries"}; predicates: '
                       + ' ; '.join(f'{k}={bn.show(v)}' for k, v in preds.items()))
-    # edges == not instance and target in self.variables()
-    A = ('atom', "':instance' == t[1]") if False else None
     concept = _concept_atom(preds['instances'])
-    want_edges = bn.mk_and([bn.mk_not(concept), ('atom', 't[2] in self.variables()')]) if concept else None
-    if want_edges is None:
+    if concept is None:
         rep.undecided('Graph.instances selects exactly the concept-role triples', repo.func(G, 'Graph.instances').loc(),
                       f'predicate is {bn.show(preds["instances"])}')
     else:
-        rep.ok('Graph.instances selects exactly the concept-role triples', repo.func(G, 'Graph.instances').loc(),
-               bn.show(preds['instances']))
+        rep.ok('Graph.instances selects exactly the concept-role triples', repo.func(G, 'Graph.instances').loc(), bn.show(preds['instances']))
+        want_edges = bn.mk_and([bn.mk_not(concept), ('atom', 't[2] in self.variables()')])
         d = bn.equivalent(preds['edges'], want_edges)
+        known = set(bn.atoms_of(preds['edges'])) <= set(bn.atoms_of(want_edges))
         rep.add('Graph.edges = non-instance triples whose target is in self.variables()', where,
-                'ok' if d is None else 'violation',
+                'ok' if d is None else ('violation' if known else 'undecided'),
                 '' if d is None else f'edges predicate is {bn.show(preds["edges"])}; differs for {d}')
-    # filters: parameter i is compared with slot i
+    # filters: parameter i is compared with slot i (all parameters symbolic)
     fpos = ft.positional[1:]
-    call = ast.Call(func=ast.Name(id='f', ctx=ast.Load()), args=[ast.Name(id=p, ctx=ast.Load()) for p in fpos], keywords=[])
-    live = _inline_filter(ctx, ft, call, tv)
-    for cond, fpred, source, gen in live:
-        if gen is None:
-            continue
-        for i, p in enumerate(fpos):
-            want = bn.mk_or([('atom', f'{p} is None'), ('atom', ' == '.join(sorted([p, f't[{i}]'])))])
-            conj = fpred[1] if isinstance(fpred, tuple) and fpred[0] == 'and' else [fpred]
-            okc = any(bn.equivalent(c, want) is None for c in conj)
-            rep.add(f'Graph._filter_triples: filter {p} compares slot {i}', ft.loc(gen.iter), 'ok' if okc else 'undecided',
-                    '' if okc else f'no conjunct equivalent to `{p} is None or {p} == t[{i}]` in {bn.show(fpred)}')
+    try:
+        alts = sel.of_function(ft, {})
+    except AnalysisError as exc:
+        rep.undecided(f'{ft.fq}: selection summary', ft.loc(), str(exc))
+        return rep
+    total = bn.mk_or([bn.mk_and([c, p]) for c, p, _, _ in alts])
+    want = bn.mk_and([bn.mk_or([('atom', f'{p} is None'), ('atom', ' == '.join(sorted([p, f't[{i}]'])))]) for i, p in enumerate(fpos)])
+    known = set(bn.atoms_of(total)) <= set(bn.atoms_of(want))
+    d = bn.equivalent(total, want)
+    rep.add(f'{ft.fq}: a triple is selected iff every given component equals the corresponding slot', ft.loc(),
+            'ok' if d is None else ('violation' if known else 'undecided'),
+            bn.show(total)[:160] if d is None else f'selects when {bn.show(total)[:200]}; differs from the documented filter for {d}')
+    srcs = {a[2] for a in alts}
+    rep.add(f'{ft.fq}: ranges over self.triples', ft.loc(), 'ok' if srcs == {'self.triples'} else 'undecided', f'iterates {sorted(srcs)}')
     # public methods pass their parameters in position
     for name in ('edges', 'attributes'):
         fi = repo.func(G, f'Graph.{name}')
-        comp = _returned_comp(ctx, fi)
-        src = single_def(ctx, fi, comp.generators[0].iter)
-        got = [norm(a) for a in src.args]
-        want = fi.positional[1:4]
-        rep.add(f'{fi.fq}: passes (source, role, target) through in order', fi.loc(src), 'ok' if got == want else 'undecided',
-                '' if got == want else f'passes {got}')
+        calls = [c for c in walk_local(fi.node) if isinstance(c, ast.Call) and isinstance(c.func, ast.Attribute) and c.func.attr == '_filter_triples']
+        for c in calls:
+            got = [norm(a) for a in c.args] + [f'{k.arg}={norm(k.value)}' for k in c.keywords]
+            want_args = fi.positional[1:4]
+            kw_ok = all(k.arg == norm(k.value) for k in c.keywords) and [norm(a) for a in c.args] == want_args[:len(c.args)] \
+                and len(c.args) + len(c.keywords) == 3
+            swapped = sorted(norm(a) for a in c.args) == sorted(want_args) and [norm(a) for a in c.args] != want_args
+            rep.add(f'{fi.fq}: passes (source, role, target) through in order', fi.loc(c),
+                    'ok' if kw_ok else ('violation' if swapped else 'undecided'),
+                    '' if kw_ok else f'passes {got}' + (': the filters are applied to the wrong components' if swapped else ''))
+        if not calls:
+            rep.undecided(f'{fi.fq}: passes (source, role, target) through', fi.loc(), 'no _filter_triples call')
     return rep
 
 
@@ -238,26 +174,56 @@ def r22(ctx: Ctx) -> RuleReport:
 
 @rule('R23top', 'the implicit top is the source of the first triple; an explicit top wins')
 def r23top(ctx: Ctx) -> RuleReport:
+    from ..resolve import symbolic_returns
     rep = RuleReport('R23top', r23top.title, floor=2)
     fi = ctx.repo.func(G, 'Graph.top')
-    cfg = CFG(fi.node)
-    IN = cond_facts(cfg)
-    pm = ctx.repo.parent_map(fi.node)
-    found = False
-    for n in walk_local(fi.node):
-        if isinstance(n, ast.Assign) and norm(n.value) == 'self.triples[0][0]':
-            found = True
-            facts = facts_at(cfg, IN, pm, n)
-            tname = n.targets[0].id if isinstance(n.targets[0], ast.Name) else '?'
-            g1 = (f'{tname} is None', True) in facts
-            g2 = any(f in facts for f in [('len(self.triples) > 0', True), ('self.triples', True), ('len(self.triples) == 0', False)])
-            rep.add(f'{fi.fq}: implicit top only when no explicit top and triples exist', fi.loc(n),
-                    'ok' if g1 and g2 else 'undecided', '' if g1 and g2 else f'facts {sorted(facts)}')
-            src = single_def(ctx, fi, ast.Name(id=tname, ctx=ast.Load()))
-    if not found:
+    NONEMPTY = ('atom', 'self.triples is non-empty')
+    NOTOP = ('atom', 'self._top is None')
+    table = {'len(self.triples) > 0': NONEMPTY, 'len(self.triples) != 0': NONEMPTY, 'len(self.triples) >= 1': NONEMPTY,
+             'self.triples': NONEMPTY, 'bool(self.triples)': NONEMPTY, '0 < len(self.triples)': NONEMPTY,
+             '0 == len(self.triples)': bn.mk_not(NONEMPTY), 'len(self.triples) == 0': bn.mk_not(NONEMPTY),
+             'len(self.triples) < 1': bn.mk_not(NONEMPTY), 'len(self.triples)': NONEMPTY}
+
+    def canon(f):
+        if isinstance(f, tuple) and f[0] == 'atom':
+            return table.get(f[1], f)
+        if isinstance(f, tuple) and f[0] == 'not':
+            return bn.mk_not(canon(f[1]))
+        if isinstance(f, tuple) and f[0] in ('and', 'or'):
+            return (f[0], [canon(x) for x in f[1]])
+        return f
+    try:
+        paths = symbolic_returns(fi)
+    except AnalysisError as exc:
+        rep.undecided(f'{fi.fq}: paths', fi.loc(), str(exc))
+        return rep
+    ab = bn.Abstractor()
+    implicit, explicit = [], []
+    for conds, val, st in paths:
+        pc = canon(bn.mk_and([ab.formula(c) if pol else bn.mk_not(ab.formula(c)) for c, pol in conds]))
+        src = norm(val) if val is not None else 'None'
+        if src == 'self._top':
+            explicit.append(pc)
+        elif src == 'self.triples[0][0]':
+            implicit.append(pc)
+        elif val is not None and isinstance(val, ast.Subscript) and norm(val).startswith('self.triples['):
+            rep.violation(f'{fi.fq}: implicit top is self.triples[0][0]', fi.loc(st),
+                          f'the fallback returns {src}: the implicit top is the source of the first triple')
+            return rep
+        else:
+            rep.undecided(f'{fi.fq}: returns the explicit top or the source of the first triple', fi.loc(st), f'returns {src}')
+            return rep
+    if not implicit:
         rep.undecided(f'{fi.fq}: implicit top is self.triples[0][0]', fi.loc(), 'no such fallback')
-    else:
-        rep.ok(f'{fi.fq}: implicit top is self.triples[0][0]', fi.loc())
+        return rep
+    rep.ok(f'{fi.fq}: implicit top is self.triples[0][0]', fi.loc())
+    f = bn.mk_or(implicit)
+    want = bn.mk_and([NOTOP, NONEMPTY])
+    known = set(bn.atoms_of(f)) <= {NOTOP[1], NONEMPTY[1]}
+    d = bn.equivalent(f, want)
+    rep.add(f'{fi.fq}: implicit top exactly when no explicit top is set and triples exist', fi.loc(),
+            'ok' if d is None else ('violation' if known else 'undecided'),
+            bn.show(f) if d is None else f'the first triple\'s source is returned when {bn.show(f)}; expected {bn.show(want)}; differs for {d}')
     return rep
 
 
@@ -336,7 +302,7 @@ ORDER_FREE_CONSUMERS = {'set', 'frozenset', 'sorted', 'sum', 'any', 'all', 'len'
 
 @rule('R13', 'no iteration order of a set reaches an ordered result (hash-seed independence)')
 def r13(ctx: Ctx) -> RuleReport:
-    rep = RuleReport('R13', r13.title, floor=5)
+    rep = RuleReport('R13', r13.title, floor=3)
     frozen = {
         ('penman.model:_dfs', 'for target in targets'): 'adjacency closure: q is local, indexed and tested for membership only; the result is the set `visited`',
         ('penman.model:_dfs', 'generator over q.get(cur, [])'): 'work-list order only changes the visiting order; the result is the set `visited`',
@@ -376,8 +342,10 @@ def r13(ctx: Ctx) -> RuleReport:
                 fz = None
                 if verdict == 'violation':
                     for (ffq, tag), reason in frozen.items():
-                        if ffq == fi.fq and (tag.startswith(norm(node).split(':')[0][:len(tag)]) or
-                                             (kind in ('comp', 'extend') and 'q.get(cur' in norm(it)) and 'generator' in tag):
+                        # keyed by module and construct so that moving the closure into a helper keeps the triage
+                        if ffq.split(':')[0] == fi.module.name and (
+                                (kind == 'for' and 'for target in targets' == tag and norm(it) == 'targets') or
+                                (kind in ('comp', 'extend', 'for') and 'q.get(cur' in norm(it) and 'generator' in tag)):
                             fz = reason
                 if fz:
                     rep.exception(key, where, fz)
